@@ -53,8 +53,9 @@ def run(ctx):
     lossless.run_lossless(ctx, res, plan, ("c12",), "spans")
     # (b) on near-valid programs: every statement skeleton with one token replaced by an arbitrary token
     from . import h_c01
-    kitp, pf = h_c01.run_prefixes(ctx, res, 1 if ctx.quick() else 2, which=("violation",), modes=("subst",) if ctx.quick() else ("subst", "insert"))
-    h_c01.triage_failures(ctx, res, kitp, pf)
+    for k, modes, depth in ([(1, ("subst",), 1)] if ctx.quick() else [(1, ("subst",), 2), (1, ("insert",), 1)]):
+        kitp, pf = h_c01.run_prefixes(ctx, res, k, which=("violation",), modes=modes, depth=depth)
+        h_c01.triage_failures(ctx, res, kitp, pf)
     structural_semantic_range(res)
     from . import c12_escape
     c12_escape.run_escapes(ctx, res)
